@@ -135,6 +135,13 @@ def run_property(prop, tier, seed, facts_dir=None, do_extract=True, quiet=False,
         facts_dir = os.path.join(os.environ.get("UEC_WORK", os.path.join(VERIF, ".work")), "facts-" + prop)
     ev_dir = os.environ.get("UEC_EVIDENCE_DIR", os.path.join(VERIF, "evidence"))
     viol_dir = os.path.join(ev_dir, "violations")
+    if write and os.path.isdir(viol_dir):
+        for fn_ in os.listdir(viol_dir):
+            if fn_.startswith(prop + "-"):
+                try:
+                    os.remove(os.path.join(viol_dir, fn_))
+                except OSError:
+                    pass
     nonce = None
     fatal = None
     ctx = None
@@ -267,8 +274,18 @@ def main(argv=None):
     if a.replay:
         j = json.load(open(a.replay))
         print("replaying %s: rule %s\n  %s\n  recorded: %s" % (j["key"], j["rule"], j.get("rule_text", ""), j["detail"]))
-        rc = run_property(j["property"], a.tier, seed)
-        return rc
+        import io, contextlib
+        buf = io.StringIO()
+        with contextlib.redirect_stdout(buf):
+            rc = run_property(j["property"], a.tier, seed)
+        out = buf.getvalue()
+        still = [l for l in out.splitlines() if l.startswith("  violation " + j["key"] + " ")]
+        if still:
+            print("still fails on the current tree:\n" + still[0][:2000])
+            print("VIOLATION property=%s replay=%s" % (j["property"], a.replay))
+            return 1
+        print("this rule instance holds on the current tree (%s)" % out.splitlines()[0] if out else "")
+        return 0
     if a.tier == "thorough":
         from . import thorough
         return thorough.run(a.prop, seed)
